@@ -154,7 +154,7 @@ def gen_c09(rng):
     return cfg + "\n" + "\n".join(ops) + "\n"
 
 
-def gen_c04(rng, wrap):
+def gen_c04(rng, wrap, tears="0,1"):
     policy = rng.choice(["woi", "woe"])
     tomb = rng.choice([0, 1])
     if wrap:
@@ -168,18 +168,16 @@ def gen_c04(rng, wrap):
         return cfg + "\n" + "\n".join(ops) + "\n"
     cfg = H.cfg_line(policy=policy, algo="fifo", mem=(2 if policy == "woe" else 100), univ=4, blocks=16, tomb=tomb)
     ops, ver = [], 1
-    for _ in range(rng.randrange(4, 14)):
-        a = rng.choices(["ins", "rm", "wait", "memevict"], [55, 15, 20, 10])[0]
+    for _ in range(rng.randrange(4, 12)):
+        a = rng.choices(["ins", "rm", "sync"], [60, 15, 25])[0]
         k = rng.randrange(4)
         if a == "ins":
             ops.append(f"ins k={k} ver={ver} size={rng.choice([64, 3000, 9000, 30000])}"); ver += 1
         elif a == "rm":
             ops.append(f"rm k={k}")
-        elif a == "wait":
-            ops.append("wait")
         else:
-            ops.append("memevict")
-    ops += ["memevict", "wait", "crashsweep tears=0,1,3"]
+            ops += ["memevict", "wait"]        # everything inserted so far is handed to the disk tier and acknowledged
+    ops += ["memevict", "wait", f"crashsweep tears={tears}"]
     return cfg + "\n" + "\n".join(ops) + "\n"
 
 
@@ -197,8 +195,15 @@ def gen_c03(rng, n_faults, exhaustive_pages=None):
                 ops.append("wait")
             if rng.random() < 0.15:
                 ops.append(f"rm k={rng.randrange(5)}")
+        if tomb and rng.random() < 0.3:
+            # a large value whose fill byte is 0xff (version 165): whole pages of 0xff that a misdirected write or a
+            # page swap can put into the tombstone log
+            ops.append(f"ins k=4 ver=165 size=20000")
         ops += ["wait", "close"]
         nparts = 8 + tomb
+        if tomb and rng.random() < 0.25:
+            ops.append(rng.choice(["fault part=0 page=0 kind=ff", "fault part=1 page=2 kind=swap:0:0",
+                                   "fault part=0 page=0 kind=swap:1:2", f"fault part=0 page=0 kind=flip:{rng.randrange(4096 * 8)}"]))
         for _ in range(rng.choice([1, 1, 1, 2, 3])):
             part = rng.randrange(nparts)
             page = rng.choice([0, 0, 0, 1, 1, 2, 3, 4, 5, 6, 7, 8])
@@ -234,8 +239,8 @@ def gen_scripts(pid, tier, seed):
             "sustained inserts of 2..4 device capacities (4..8 blocks of 64 KiB, mixed sizes, overwrites, deletes, lookups), " \
             "1..2 flushers, 1..2 reclaimers, reinsertion filter none / key 0"
     if pid == "C04":
-        n = 60 if th else 7
-        return [gen_c04(rng, False) for _ in range(n)] + [gen_c04(rng, True) for _ in range(n // 2 + 1)], \
+        n = 60 if th else 5
+        return [gen_c04(rng, False, "0,1,3" if th else "0,1") for _ in range(n)] + [gen_c04(rng, True) for _ in range(n // 2)], \
             "workloads of inserts / overwrites / deletes / waits; every write boundary of the logged device writes (plus 1- and " \
             "3-page tears of the in-flight write) turned into a device image, reopened, every key read, one more write issued; " \
             "also wrap-around workloads on a 4-block device (reclaim in progress at the crash)"
